@@ -1450,7 +1450,7 @@ class Stage:
             ret._constraints[k] = list(zip(r, [merge_meta(m, get_meta()) for _, m, _ in v], [d for _, _, d in v]))
             r = r[len(v):]
 
-        ret._initial = HashOrderedDict(zip(res[n_constr+1:], self._initial.values()))
+        ret._initial = HashOrderedDict(zip(res[n_constr+1:], [renew(v) for v in self._initial.values()]))
 
         if "T" not in kwargs:
             ret._T = copy(self._T)
